@@ -32,6 +32,14 @@ type c13Item struct {
 	failAfter int  // <0: never
 	cancelAt  int  // <0: never; after that many bytes the writer waits for closeCh and then reports cancellation
 	closeNow  func()
+	err       error // what a failing item writer returns (nil: errItem)
+}
+
+func (it *c13Item) failErr() error {
+	if it.err != nil {
+		return it.err
+	}
+	return errItem
 }
 
 var errItem = errors.New("item writer failed (injected)")
@@ -40,7 +48,7 @@ func (it *c13Item) WriteTo(w io.Writer, closeCh chan struct{}) (int64, error) {
 	var n int64
 	for off := 0; off < len(it.data) || off == 0; {
 		if it.failAfter >= 0 && off >= it.failAfter {
-			return n, errItem
+			return n, it.failErr()
 		}
 		if it.cancelAt >= 0 && off >= it.cancelAt {
 			if it.closeNow != nil {
@@ -56,7 +64,7 @@ func (it *c13Item) WriteTo(w io.Writer, closeCh chan struct{}) (int64, error) {
 		if it.failAfter >= 0 && end > it.failAfter {
 			end = it.failAfter
 			k, _ := w.Write(it.data[off:end])
-			return n + int64(k), errItem
+			return n + int64(k), it.failErr()
 		}
 		if it.cancelAt >= 0 && end > it.cancelAt {
 			end = it.cancelAt
@@ -109,7 +117,7 @@ func pattern(n int, salt byte) []byte {
 }
 
 func runC13(c *vk.Ctx) {
-	c.Rule("boundary grid: item sizes {0,1,4095,4096,4097,3 buffers,64KiB+1} x chunkings x pre-existing file {absent, shorter, equal length, longer} x faults {none, item writer fails after k bytes, cancellation after k bytes, cancellation already in force when Persist is entered (item writer honouring / ignoring it), os write fails after a partial write, os sync fails, os close fails} with k over a boundary set x both item kinds, plus real segment and snapshot items; " +
+	c.Rule("boundary grid: item sizes {0,1,4095,4096,4097,3 buffers,64KiB+1} x chunkings x pre-existing file {absent, shorter, equal length, longer} x faults {none, item writer fails after k bytes (with a plain error and with io.EOF / io.ErrUnexpectedEOF / io.ErrShortWrite / ErrClosed while the channel is open / os.ErrClosed / EINTR / EAGAIN / wrapped forms), cancellation after k bytes, cancellation already in force when Persist is entered (item writer honouring / ignoring it), os write fails after a partial write, os sync fails, os close fails} with k over a boundary set x both item kinds, plus real segment and snapshot items; " +
 		"oracle: after success the file holds exactly the written bytes and the os-level log (overlay hooks) shows a successful Sync on that file after its last Write/Truncate and before Persist returned; after failure or cancellation nothing is left under the item's name. distinct non-trivial = distinct (kind, size, pre-state, fault, placement) cases that executed")
 	c.Assume("os.File operations are observed through a go build -overlay copy of os/file.go and os/file_posix.go (no change to bluge); a returned Sync means durable content",
 		"directory entries are durable at operation completion (bluge never syncs the directory)")
@@ -307,6 +315,30 @@ func runC13(c *vk.Ctx) {
 			// cancellation that is already in force when Persist is entered (Writer.Close racing the merger / persister)
 			run(&c13Case{Kind: kind, Size: size, Chunk: 4096, Pre: pre, Fault: "cancel-before"}, &c13Item{data: data, chunk: 4096, failAfter: -1, cancelAt: 0}, data)
 			run(&c13Case{Kind: kind, Size: size, Chunk: 4096, Pre: pre, Fault: "cancel-before-ignored"}, &c13Item{data: data, chunk: 4096, failAfter: -1, cancelAt: -1}, data)
+			}
+		}
+	}
+	// the item writer fails with error VALUES that code on the way might mistake for "done": end-of-input,
+	// cancellation without the channel being closed, interrupted / would-block, wrapped forms
+	for _, fe := range []struct {
+		name string
+		err  error
+	}{
+		{"io.EOF", io.EOF}, {"wrapped-io.EOF", fmt.Errorf("segment writer: %w", io.EOF)}, {"io.ErrUnexpectedEOF", io.ErrUnexpectedEOF},
+		{"io.ErrShortWrite", io.ErrShortWrite}, {"segment.ErrClosed-channel-open", segment.ErrClosed}, {"os.ErrClosed", os.ErrClosed},
+		{"EINTR", syscall.EINTR}, {"EAGAIN", syscall.EAGAIN}, {"wrapped-ErrClosed", fmt.Errorf("merge: %w", segment.ErrClosed)},
+	} {
+		for _, kind := range []string{index.ItemKindSegment, index.ItemKindSnapshot} {
+			for _, size := range []int{1, 4097, 3 * 4096} {
+				data := pattern(size, 0)
+				for _, pre := range []string{"absent", "longer"} {
+					for _, k := range []int{0, 1, size / 2, size - 1} {
+						if k >= size {
+							continue
+						}
+						run(&c13Case{Kind: kind, Size: size, Chunk: 4096, Pre: pre, Fault: "item-fail-with:" + fe.name, FaultAt: k}, &c13Item{data: data, chunk: 4096, failAfter: k, cancelAt: -1, err: fe.err}, data)
+					}
+				}
 			}
 		}
 	}
